@@ -73,7 +73,19 @@ template<class T> static void finish_roundtrip(const T *a, T *b, std::ostream *&
 }
 
 #define DISPATCH_BEGIN int sh_sym = nondet_int(), pat_sym = nondet_int();
-#define SHAPE_CASE(body, k) for (int p = 0; p < NPAT; p++) if (sh_sym == (k) && pat_sym == p) { g_pat = p; g_k = 0; body<(k)>(); return; }
+// -DONLY_SHAPE=k / -DPAT_MASK=bits restrict one catalogue entry to a slice of the shape x pattern grid
+#ifndef ONLY_SHAPE
+#define ONLY_SHAPE (-1)
+#endif
+#ifndef PAT_MASK
+#define PAT_MASK (-1)
+#endif
+// every (shape, pattern) pair is its own call site with literal constants: a loop over patterns would let the
+// compiler share one body between iterations, and the merged pattern number would be symbolic
+#define PAT_CASE(body, k, p) if ((p) < NPAT && ((PAT_MASK >> (p)) & 1) && sh_sym == (k) && pat_sym == (p)) \
+  { g_pat = (p); g_k = 0; body<(k)>(); return; }
+#define SHAPE_CASE(body, k) if (ONLY_SHAPE < 0 || ONLY_SHAPE == (k)) { PAT_CASE(body, k, 0) PAT_CASE(body, k, 1) PAT_CASE(body, k, 2) \
+  PAT_CASE(body, k, 3) PAT_CASE(body, k, 4) PAT_CASE(body, k, 5) PAT_CASE(body, k, 6) }
 #define DISPATCH_END ASSUME(false);
 
 // ---- InterrogateComponent ----
@@ -210,18 +222,21 @@ extern "C" void harness_c12_rec_wrapper() {
 }
 
 // ---- InterrogateType: SHAPE bit0 = one alt name, bits 1..8 = one element in constructors, elements, methods,
-//      make_seqs, casts, derivations, enum_values, nested_types ----
+//      make_seqs, casts, derivations, enum_values, nested_types; bit 9 = array type (adds _array_size to the file) ----
 template<int SHAPE> static void type_body() {
   as_file_version(3);
   InterrogateType *a = new InterrogateType, *b = new InterrogateType;
   fill_component<SHAPE & 1>(a);
-  a->_flags = nondet_int();
+  // _flags decides whether _array_size is part of the file, i.e. the number of tokens: it has to be concrete for
+  // symbolic execution (a symbolic token count makes every later stream position symbolic).  Two fixed bit patterns,
+  // one per value of the array bit; every other scalar is symbolic.
+  a->_flags = (SHAPE & 0x200) ? (0x55EA5A5A | InterrogateType::F_array) : (0x2A95A5A5 & ~InterrogateType::F_array);
   sym_str(a->_scoped_name); sym_str(a->_true_name);
   a->_outer_class = nondet_int();
   a->_atomic_token = (AtomicToken)nondet_int();
   a->_wrapped_type = nondet_int();
   // the array size is part of the file only for array types; other types keep the constructor default
-  if (a->_flags & InterrogateType::F_array) a->_array_size = nondet_int();
+  if (SHAPE & 0x200) a->_array_size = nondet_int();
   if (SHAPE & 2) a->_constructors.push_back(nondet_int());
   a->_destructor = nondet_int();
   if (SHAPE & 4) a->_elements.push_back(nondet_int());
@@ -264,7 +279,7 @@ template<int SHAPE> static void type_body() {
   WITNESS();
 }
 #ifndef TYPE_SHAPES
-#define TYPE_SHAPES SHAPE_CASE(type_body, 0) SHAPE_CASE(type_body, 0x1ff) SHAPE_CASE(type_body, 0x0aa) SHAPE_CASE(type_body, 0x155)
+#define TYPE_SHAPES SHAPE_CASE(type_body, 0) SHAPE_CASE(type_body, 0x3ff) SHAPE_CASE(type_body, 0x2aa) SHAPE_CASE(type_body, 0x155)
 #endif
 extern "C" void harness_c12_rec_type() {
   DISPATCH_BEGIN TYPE_SHAPES DISPATCH_END
